@@ -57,6 +57,13 @@ func Visitors(infos []*linter.CheckerInfo) []Visitor {
 	add(Visitor{"typeSwitchVar", "tsv_run", "0%N", ident})
 	add(Visitor{"typeDefFirst", "tdf_run", "(@nil string)", ident})
 	add(Visitor{"commentedOutCode", "coc_run", "false", ident})
+	// SkipChilds protocol through the type-expression walker; the model does not print the types
+	add(Visitor{"typeUnparen", "skt_run", "false", func(s string) string {
+		if strings.HasPrefix(s, "could simplify ") {
+			return "can simplify"
+		}
+		return s
+	}})
 	return out
 }
 
